@@ -307,7 +307,52 @@ def run(prog, check):
                     wantl = {'self.T': 1, '': -1} if n.targets[0].id == 'H_LAG' else {'self.T': 1, '': 0}
                     check.ob('C09.R4', '%s::%s::index(%s)' % (sim.module.rel, rs.qualname, n.targets[0].id), lin_eq(lf, wantl), rs.where,
                              '%s read at %s' % (n.targets[0].id, ast.unparse(n.value.slice)), 'any G path / initial wealth')
-        check.floor('C09.R4', 8)
+            # the fixed-point loop of the period stops on the size of the change, not on its sign
+            for n in ast.walk(rs.node):
+                if isinstance(n, ast.Compare) and len(n.ops) == 1 and isinstance(n.ops[0], (ast.Lt, ast.LtE, ast.Gt, ast.GtE)):
+                    for side, other in ((n.left, n.comparators[0]), (n.comparators[0], n.left)):
+                        if isinstance(other, ast.Constant) and isinstance(other.value, float) and other.value < 1 and \
+                                any(isinstance(x, ast.BinOp) and isinstance(x.op, ast.Sub) and isinstance(x.left, ast.Name)
+                                    and isinstance(x.right, ast.Name) for x in ast.walk(side)):
+                            two_sided = isinstance(side, ast.Call) and call_name(side) in ('abs', 'fabs')
+                            check.ob('C09.R4', '%s::%s::stop-test-two-sided' % (sim.module.rel, rs.qualname), two_sided, '%s:%d' % (sim.module.rel, n.lineno),
+                                     'the iteration stops on abs(change) below the tolerance' if two_sided else
+                                     'the iteration stops on `%s`: a change of the other sign ends it at once, far from the fixed point' % ast.unparse(n),
+                                     'a period in which income falls (a cut in G)')
+        check.floor('C09.R4', 9)
+    # ---- R5: the models follow the paths the user supplies ----------------------------------------------
+    from ._common import exogenous_applied
+    from .. import cfg as cfgmod_
+    from ..cfg import atomic_facts
+    pf, okx, whyx = exogenous_applied(prog)
+    check.saw(pf)
+    check.ob('C09.R5', '%s::exogenous-entries-applied' % pf.key, okx, pf.where, whyx,
+             'a builder with its book path, then SetExogenous with the user\'s G / r path')
+    # book-specific data (paths, initial conditions) is installed by a builder only when the book set-up was asked for
+    nb = 0
+    for rel, m_ in sorted(prog.modules.items()):
+        if '/gl_book/' not in rel.replace('\\', '/'):
+            continue
+        for ci in [c for c in prog.classes.values() if c.module is m_]:
+            bm = ci.methods.get('build_model')
+            if bm is None:
+                continue
+            gb = cfgmod_.build(bm)
+            for nd in gb.stmt_nodes():
+                if nd.kind != 'stmt':
+                    continue
+                for c in ast.walk(nd.ast):
+                    if isinstance(c, ast.Call) and call_name(c) in ('SetExogenous', 'AddExogenous', 'AddInitialCondition'):
+                        flagged = any(v is True and isinstance(e, ast.Attribute) and e.attr == 'UseBookExogenous'
+                                      for test, outcome in gb.conditions_at(nd) for _, v, e in atomic_facts(test, outcome))
+                        nb += 1
+                        check.saw(bm)
+                        check.ob('C09.R5', '%s::%s::book-data-under-flag(%s)' % (rel, bm.qualname, ast.unparse(c)[:60]), flagged,
+                                 '%s:%d' % (rel, c.lineno),
+                                 'installed only when the book set-up was requested' if flagged else
+                                 'book-specific data is installed even when the model was requested without the book set-up',
+                                 'use_book_exogenous=False and the user\'s own paths / initial stocks')
+    check.floor('C09.R5', 10)
     check.floor('C09.R3', 4)
     check.floor('C09.R1', 9)
     check.floor('C09.R2', 8)
